@@ -615,3 +615,20 @@ impl Scanner {
         self.source.len()
     }
 }
+
+/// Verification hook (feature `verif_hooks`): the token stream of `source` as
+/// (kind as u8, kind name, line, text), up to and including the first Eof token or `max` tokens.
+#[cfg(feature = "verif_hooks")]
+pub fn verif_scan(source: &str, max: usize) -> Vec<(u8, String, usize, String)> {
+    let mut scanner = Scanner::from_source(source.to_string());
+    let mut tokens = Vec::new();
+    while tokens.len() < max {
+        let token = scanner.scan_token();
+        let kind = token.kind;
+        tokens.push((kind as u8, format!("{:?}", kind), token.line, token.source));
+        if kind == TokenKind::Eof {
+            break;
+        }
+    }
+    tokens
+}
